@@ -646,6 +646,12 @@ func (g *genState) block() {
 		for i := 0; i < n; i++ {
 			faults = append(faults, r.Chance(40))
 		}
+	} else if g.p.Faults && g.p.Imported && r.Chance(40) {
+		// a payout that fails after some of its transfers went through: k successful back-end calls, then a failure
+		for i, k := 0, 1+r.Intn(3); i < k; i++ {
+			faults = append(faults, false)
+		}
+		faults = append(faults, true)
 	}
 	g.h.Events = append(g.h.Events, Event{Kind: "end", Faults: faults})
 	if g.height == ve {
